@@ -58,6 +58,7 @@ class World {
         else if (key === 'p') v = label + '.p'
         else if (key === 'length') v = 3
         else if (key === 'nil') v = null
+        else if (key === 'arr') v = ['oa1', 'oa2']
         else v = undefined
         cache.set(key, v)
         return v
@@ -117,7 +118,8 @@ function makeEnv (spec) {
     fMutates: spec.f === 'mut',
     fThrows: spec.f === 'throw',
     ev: (tag, args) => w.ev('ev', tag, args === undefined ? undefined : w.canon(args)),
-    p: Promise.resolve('P')
+    p: Promise.resolve('P'),
+    iter: (src) => ({ [Symbol.iterator]: () => { w.ev('iter-open'); let i = 0; return { next: () => { w.ev('iter-next', i); return i < src.length ? { value: src[i++], done: false } : { value: undefined, done: true } } } } })
   }
   const self = w.spy('self')
   return { w, E, self }
